@@ -62,25 +62,7 @@ def rat(v):
     return zr(v)
 
 
-def ratz(t):
-    """exact-real reading of a term computed by the real code in float32/float64: every rational numeral with a huge denominator
-    (a rounded k/20 mesh constant or a max_shifts literal such as 1.3) is replaced by the nearest fraction with denominator <= 10^4"""
-    t = t if isinstance(t, z3.ExprRef) else zr(t)
-    subs, seen, stack = [], set(), [t]
-    while stack:
-        u = stack.pop()
-        if u.get_id() in seen:
-            continue
-        seen.add(u.get_id())
-        if z3.is_rational_value(u):
-            f = Fraction(u.as_fraction())
-            if f.denominator > 10 ** 6:
-                g = f.limit_denominator(10 ** 4)
-                if abs(float(g) - float(f)) < 1e-6:
-                    subs.append((u, z3.RealVal(g)))
-        else:
-            stack.extend(u.children())
-    return z3.substitute(t, *subs) if subs else t
+from .common import ratz  # noqa: E402  (exact-real reading of float constants)
 
 
 def ceil_z(e):
